@@ -157,6 +157,24 @@ fn gen_poly(rng: &mut Rng) -> (Polygon<f64>, Coord<f64>) {
 }
 
 pub fn gen(rng: &mut Rng, _index: u64) -> String {
+    if rng.chance(1, 25) {
+        // triangles as geometries; two in three are flat (collinear corners, sometimes repeated): the point set is the hull segment
+        let tri_p = if rng.chance(2, 3) {
+            let (ox, oy) = (rng.range(-4, 4), rng.range(-4, 4));
+            let (dx, dy) = *rng.pick(&[(1i64, 0i64), (0, 1), (1, 1), (1, -1), (2, 1), (-1, 3), (0, 0)]);
+            let at = |t: i64| Coord { x: (ox + dx * t) as f64, y: (oy + dy * t) as f64 };
+            let (a, b, c) = (at(rng.range(-3, 3)), at(rng.range(-3, 3)), at(rng.range(-3, 3)));
+            let mut p = at(rng.range(-5, 5));
+            if rng.chance(1, 4) { p.y += *rng.pick(&[-1.0, 1.0]); }
+            (Triangle(a, b, c), p)
+        } else {
+            let (a, p, b) = near_collinear(rng);
+            let c = wild_coord(rng);
+            let t = match rng.below(3) { 0 => Triangle(a, b, c), 1 => Triangle(b, c, a), _ => Triangle(c, a, b) };
+            (t, p)
+        };
+        return format!("C03.poly {} {}", proto::geom(&Geometry::Triangle(tri_p.0)), proto::coord(tri_p.1));
+    }
     if rng.chance(1, 12) {
         let (poly, p) = gen_poly(rng);
         return format!("C03.poly {} {}", proto::geom(&Geometry::Polygon(poly)), proto::coord(p));
@@ -360,7 +378,12 @@ pub fn eval(op: &str, t: &mut Toks) -> R<String> {
             use geo::coordinate_position::CoordinatePosition;
             let g = t.geom()?;
             let p = t.coord()?;
-            let poly = match &g { Geometry::Polygon(pg) => pg.clone(), _ => return Err("C03.poly wants PG".into()) };
+            if let Geometry::Triangle(tri) = &g {
+                // a Triangle (flat ones included): coordinate_position on the concrete type or through the enum
+                let pos = if p.x.to_bits() & 1 == 0 { tri.coordinate_position(&p) } else { g.coordinate_position(&p) };
+                return Ok(format!("{} {} {} {}", pos_str(pos), tri.contains(&p), tri.intersects(&p), Point(p).intersects(tri)));
+            }
+            let poly = match &g { Geometry::Polygon(pg) => pg.clone(), _ => return Err("C03.poly wants PG or TR".into()) };
             // the entry point rotates: the concrete type, the Geometry enum, a one-member MultiPolygon
             let pos = match (p.x.to_bits() ^ p.y.to_bits().rotate_left(21)) % 3 {
                 0 => poly.coordinate_position(&p),
